@@ -10,17 +10,17 @@ CLAIMED = {
  "C04": ("exploration", "4.C04", "Directory = index bijection, sizes, completeness (independent cas.v2 reader) at quiescence after runs whose uploads fail at drawn stages (corrupt, truncated, aborted mid-stream, commit refused); in addition 'the file an index entry points at exists' at every scheduling point."),
  "C05": ("exploration", "4.C05", "Sequential histories of puts, overwrites, lookups and backend fetches on small caches (occupied space measured from the files, not from the index) judged against a specification model of recency (groups with unspecified internal order): no eviction without pressure, evictions downward-closed in recency, no more than the minimal oldest prefix, present after accepted put, oversize rejected without eviction, replaced version kept until commit."),
  "C06": ("exploration", "4.C06", "Generated ActionResults (0-25 output files, nested Trees, stdout/stderr digests, empty-blob digests) whose referenced blobs are independently present, absent or stored with another size; hit <=> all present on gRPC GetActionResult and HTTP GET/HEAD, absence => NotFound/404, a hit refreshes the recency of every referenced blob."),
- "C07": ("exploration", "4.C07", "2-5 simulated clients on shared keys, every interleaving decision at lock boundaries and file-system steps taken by the seeded scheduler; reads judged for wholeness, per-key histories checked with porcupine against a weak-register model, accounting/directory invariants at every step and at quiescence, deadlock = nothing runnable with a request open."),
+ "C07": ("exploration", "4.C07", "2-5 simulated clients on shared keys, every interleaving decision at lock boundaries, file-system steps and (rule R8) at the eviction-queue hand-over inside the mutex-held region taken by the seeded scheduler; operations include SpliceBlob over shared blobs; reads judged for wholeness, per-key histories checked with porcupine against a weak-register model, accounting/directory invariants at every step and at quiescence, deadlock = nothing runnable with a request open."),
  "C08": ("fault_enumeration", "4.C08", "For generated plans (pre-population + victim uploads/overwrites/re-uploads/wrong-bytes uploads/backend fetches whose bodies pause at drawn offsets and at chunk ends) the victim phase is run once to count its N scheduling steps and then once per step with the process killed there (all goroutines of the instance parked for ever), restart on the directory as is (same/other storage mode, same/smaller max_size), every key read on every path with size known and unknown, interrupted uploads repeated. Kill = process kill: completed writes are visible; no power-loss model."),
- "C09": ("exploration", "4.C09", "Directories produced by an independent writer (current/legacy flat/legacy two-level layouts, .v1 and cas.v2 mixed, duplicates, lost+found, .DS_Store) with simulator-owned access times; start-up with max_size above/at/below the total or below the largest file; survivors judged against an oldest-first replay model, later evictions against recency, every survivor read back byte-exactly."),
- "C10": ("exploration", "4.C10", "FindMissingBlobs request lists of length 0..300 (around the internal batch of 20), duplicates, size-mismatched and empty digests, all partitions into local / backend-only / absent / oversize-in-backend, without a backend, with a harness proxy and with the real httpproxy; the scheduler permutes the completion order of the backend lookups (pool workers are labelled by work item; taking an item, wg.Done and the fail-fast callback are scheduling points) and a second client uploads other keys meanwhile. Answer must be the request filtered to the absent digests, order and duplicates preserved."),
+ "C09": ("exploration", "4.C09", "Directories produced by an independent writer (current/legacy flat/legacy two-level layouts of ac/ cas/ raw/, .v1 and cas.v2 mixed, duplicates, lost+found, .DS_Store) with simulator-owned access times; start-up with max_size above/at/below the total or below the largest file; survivors judged against an oldest-first replay model, later evictions against recency, every survivor read back byte-exactly."),
+ "C10": ("exploration", "4.C10", "FindMissingBlobs request lists of length 0..300 (around the internal batch of 20), duplicates, size-mismatched and empty digests (also the empty blob's hash with a non-zero size), all partitions into local / backend-only / absent / oversize-in-backend, without a backend, with a harness proxy and with the real httpproxy; the scheduler permutes the completion order of the backend lookups (pool workers are labelled by work item; taking an item, wg.Done and the fail-fast callback are scheduling points) and a second client uploads other keys meanwhile. Answer must be the request filtered to the absent digests, order and duplicates preserved."),
  "C11": ("exploration", "4.C11", "Valid ActionResults and one-invalid-field variants (sampled kinds, not exhaustive) uploaded via gRPC and HTTP (proto/JSON/zstd); rejected uploads must leave the key unchanged, hits are compared with the upload modulo the documented changes (worker, inlining, de-inlined bytes in the CAS), JSON and proto views must agree, whatever is stored must parse and validate."),
  "C12": ("exploration", "4.C12", "Front end with the real httpproxy over a simulated transport/object store (b1), the real grpcproxy over a simulated ClientConn whose other end is a second real instance (b2), or a harness cache.Proxy (b0); every operation may carry one backend fault (error, 404 with/without body, 5xx, disconnect or clean short stream at header/table/chunk byte offsets, missing/wrong size metadata, oversize, lost response, backend down); judged: read-through, write-through (decoded by the independent cas.v2 reader / read back from the peer instance), no wrong hit, no poisoned local entry, no leaked response body/fd/goroutine/reservation. Fault stages are drawn per operation, not enumerated exhaustively per plan."),
  "C14": ("exploration", "4.C14", "Generated hostile requests (malformed resource names, digests, sizes, offsets, nil sub-messages, message scripts that end early / send data after finish / keep sending undecodable zstd, client aborts, abandoned reads) and ill-formed stored blobs interpreted as Directory/Tree/ActionResult; after every request: no panic, error status for malformed input, handler returned (otherwise the scheduler reaches 'nothing runnable'), no goroutine, descriptor, reservation or stray file left (also after commits refused under concurrent reservations and after backend faults); a run that stops making progress is classified from its goroutine dump. Generation inside a simulator, not coverage-guided fuzzing."),
  "C15": ("exploration", "4.C15", "The same hash used as key in cas/, ac/ and raw/ (validation toggled per run) with all orders of writes, overwrites, failed stores and evictions against three independent model maps; instance-name mangling on/off over HTTP path prefix and gRPC instance_name with nested, ac/cas/blobs-containing and unicode instance names."),
  "C16": ("exploration", "4.C16", "ByteStream.Write message scripts: all chunkings (one-byte, empty messages, finish_write on last / extra / absent), identity and zstd, blob present or absent beforehand, instance prefixes and trailing metadata, protocol violations (non-zero first offset, name change, too many/few bytes, unparsable name); the scheduler owns every hand-over between receive goroutine, Put goroutine and handler (channel sends, pipe closes, the result select); QueryWriteStatus before and after."),
  "C17": ("exploration", "4.C17", "One client with the background remover starved for scheduler-chosen stretches, hard limits max_size+{0..max/2}, all write paths and overwrites of existing keys; admission judged exactly against accounted + independently measured deletion backlog (bytes of files no longer indexed) + size; refusals must be 507/RESOURCE_EXHAUSTED, change nothing and succeed on retry after the remover caught up; reads keep being served; without the option no such refusal."),
- "C20": ("exploration", "4.C20", "(a) every cas.v2 file any simulated run leaves at quiescence is parsed by an independent reader of the published format (two zstd decoders); (b) directories written by the independent writer with chunk sizes 4 KiB..4 MiB, several encoder levels, both encoders, identity-compressed headers and arbitrary alphanumeric suffixes are read back on every path and offset; (c) names recorded at the simulated backend and produced by the S3/Azure key functions (pure-function spot check) equal the harness's restatement and are injective."),
+ "C20": ("exploration", "4.C20", "(a) every cas.v2 file any simulated run leaves at quiescence is parsed by an independent reader of the published format (two zstd decoders); (b) directories written by the independent writer with chunk sizes 4 KiB..4 MiB, several encoder levels, both encoders, identity-compressed headers and arbitrary alphanumeric suffixes are read back on every path and offset; (c) names recorded at the simulated backend and produced by the S3/Azure key functions (pure-function spot check) equal the harness's restatement and are injective; the real azblobproxy runs on an in-memory transport and the blob names its Get/Contains/UploadFile ask for are compared with what release 2.x uses, for clean and unclean prefixes."),
  "C18": ("exploration", "4.C18", "Uploads of limit-1/limit/limit+1/far-above sizes through every write path under per-run random max_blob_size; refusals must be client errors that store nothing, the limit itself is accepted."),
 }
 
